@@ -382,3 +382,19 @@ Proof.
     as (p & E & X & Pp & Cp); try assumption; try lia; try (cbn [length]; lia); try constructor; try (intros; lia).
   exists p. split; [exact E|]. split; [|tauto]. exact X.
 Qed.
+
+Lemma rle_subseg_loop_nn {A} (r : list (A * Z)) : forall start x end_,
+  nnr r -> 0 <= start -> nnr (rle_subseg_loop r start x end_).
+Proof.
+  induction r as [|[a run] t IH]; intros start x end_ Hn Hs; [constructor|].
+  inversion Hn as [|p l Hp Ht]; subst. cbn [snd] in Hp. cbn [rle_subseg_loop].
+  destruct (negb (start =? 0) && (run <=? start)) eqn:E1; [apply IH; [assumption|lia]|].
+  destruct (negb (start =? 0)) eqn:E2.
+  - destruct (end_ <=? x + start) eqn:E3; [constructor|].
+    constructor; [cbn [snd]; destruct (end_ <? x + start + (run - start)) eqn:E4; lia|apply IH; [assumption|lia]].
+  - destruct (end_ <=? x) eqn:E3; [constructor|].
+    constructor; [cbn [snd]; destruct (end_ <? x + run) eqn:E4; lia|apply IH; [assumption|lia]].
+Qed.
+
+Lemma rle_subseg_nn {A} (r : list (A * Z)) s e : nnr r -> 0 <= s -> nnr (rle_subseg r s e).
+Proof. intros. now apply rle_subseg_loop_nn. Qed.
